@@ -199,6 +199,11 @@ func (w *world) judge(t *rapid.T, r result, policy int, allowed []map[int]bool, 
 			t.Fatalf("request for policy %d was forwarded to upstream %d, which is not an enabled, healthy endpoint of the policy (eligible: %v)\ntrace: %s", policy, r.upstream, allowed, trace)
 		}
 		if r.status != 200 || r.bodyFrom != fmt.Sprint(r.upstream) {
+			if len(allowed) > 1 && r.status >= 500 {
+				// a request racing with an update may have been forwarded to an endpoint that the update then
+				// removes: its proxied request is cancelled on purpose (C15) and the client sees a gateway error
+				return
+			}
 			t.Fatalf("request forwarded to upstream %d but the client got status %d from upstream %q\ntrace: %s", r.upstream, r.status, r.bodyFrom, trace)
 		}
 		return
@@ -215,7 +220,7 @@ func (w *world) judge(t *rapid.T, r result, policy int, allowed []map[int]bool, 
 
 func TestPropEndpointSelection(t *testing.T) {
 	sub := stats.NewSub("spec-and-health-histories", "rapid state machine: ops spec update (servers subset of the pool in any order, disabled flags, two policies with / without upstream subset), health flip of an upstream (then trigger + wait), n sequential requests for a policy, a burst of requests racing with a spec update, health-check trigger on a disabled endpoint; oracle: a forwarded request reached an endpoint that is in the server list, in the matched policy's subset, enabled and healthy (before or after the update for racing requests), and the answer came from that endpoint; no eligible endpoint => 503 and nothing forwarded; a disabled endpoint gets no proxied request and no probe later than 300 ms after the disabling sync; probes resume on re-enable; non-trivial = >= 1 health flip / disable / enable / subset change followed by >= 1 request; distinct by FNV-64 of the op trace")
-	stats.Check(t, stats.N(25, 400), func(t *rapid.T) {
+	stats.Check(t, stats.N(40, 300), func(t *rapid.T) {
 		g := gwbox.NewGateway()
 		defer g.Close()
 		g.SetToken("client-token", gwbox.Identity{Name: "alice"})
